@@ -1,5 +1,10 @@
 package main
 
+import (
+	"fmt"
+	"strings"
+)
+
 // Event is one shared-memory relevant action recorded in trace mode (C10).
 type Event struct {
 	Kind string // Lock Unlock RLock RUnlock MapRead MapWrite MapIter MapLen Read Write Atomic
@@ -17,26 +22,161 @@ func (ex *Exec) emit(st *State, e Event) {
 	st.events = append(st.events, e)
 }
 
+// isShared: can another thread of the concurrent phase hold a reference to this object?
+func (st *State) isShared(obj int) bool {
+	return obj != 0 && (obj <= st.phaseBase || st.published[obj])
+}
+
+// publish marks every object allocated during the phase that is reachable from v as shared
+// (v is being stored into a shared object, a shared map or a channel).
+func (ex *Exec) publish(st *State, v Value) {
+	if !st.traceOn {
+		return
+	}
+	var walk func(v Value)
+	mark := func(obj int) {
+		if obj == 0 || obj <= st.phaseBase || st.published[obj] {
+			return
+		}
+		if st.published == nil {
+			st.published = map[int]bool{}
+		}
+		st.published[obj] = true
+		if o := st.heap[obj]; o != nil {
+			walk(o.val)
+		}
+	}
+	walk = func(v Value) {
+		switch x := v.(type) {
+		case PtrV:
+			mark(x.obj)
+		case SliceV:
+			mark(x.obj)
+		case MapRef:
+			mark(x.obj)
+		case ChanRef:
+			mark(x.obj)
+		case RopeRef:
+			mark(x.buf.obj)
+		case StructV:
+			for _, f := range x.f {
+				walk(f)
+			}
+		case ArrV:
+			for _, e := range x.e {
+				walk(e)
+			}
+		case TupleV:
+			for _, e := range x {
+				walk(e)
+			}
+		case IfaceV:
+			walk(x.v)
+		case FuncV:
+			for _, e := range x.free {
+				walk(e)
+			}
+			for _, e := range x.bound {
+				walk(e)
+			}
+		case MapV:
+			for _, e := range x.entries {
+				walk(e.k)
+				walk(e.v)
+			}
+		case *MapV:
+			if x != nil {
+				for _, e := range x.entries {
+					walk(e.k)
+					walk(e.v)
+				}
+			}
+		case ChanV:
+			for _, e := range x.q {
+				walk(e)
+			}
+		case *ChanV:
+			if x != nil {
+				for _, e := range x.q {
+					walk(e)
+				}
+			}
+		}
+	}
+	walk(v)
+}
+
+// evPath renders an access path for overlap tests: constant indices are kept, symbolic
+// ones become a wildcard.
+func evPath(p []PathElem) string {
+	var sb strings.Builder
+	for _, e := range p {
+		if e.idx != nil {
+			if e.idx.isConst {
+				fmt.Fprintf(&sb, "/[%d]", e.idx.v)
+			} else {
+				sb.WriteString("/[*]")
+			}
+		} else {
+			fmt.Fprintf(&sb, "/.%d", e.field)
+		}
+	}
+	return sb.String()
+}
+
+// pathsOverlap: one access path is a prefix of the other (wildcard index matches any index).
+func pathsOverlap(a, b string) bool {
+	as, bs := strings.Split(a, "/"), strings.Split(b, "/")
+	n := len(as)
+	if len(bs) < n {
+		n = len(bs)
+	}
+	for i := 0; i < n; i++ {
+		if as[i] == bs[i] {
+			continue
+		}
+		if (as[i] == "[*]" && strings.HasPrefix(bs[i], "[")) || (bs[i] == "[*]" && strings.HasPrefix(as[i], "[")) {
+			continue
+		}
+		return false
+	}
+	return true
+}
+
+func (ex *Exec) srcOf(st *State) string {
+	if len(st.frames) == 0 {
+		return ""
+	}
+	fr := st.top()
+	if fr.block != nil && fr.ip-1 >= 0 && fr.ip-1 < len(fr.block.Instrs) {
+		if pos := fr.block.Instrs[fr.ip-1].Pos(); pos.IsValid() {
+			p := ex.prog.Fset.Position(pos)
+			return fmt.Sprintf("%s (%s:%d)", fr.fn.String(), p.Filename, p.Line)
+		}
+	}
+	return fr.fn.String()
+}
+
 func (ex *Exec) emitAccess(st *State, p PtrV, write bool) {
-	if !st.traceOn || !ex.sharedObjs[p.obj] {
+	if !st.traceOn || !st.isShared(p.obj) {
 		return
 	}
 	k := "Read"
 	if write {
 		k = "Write"
 	}
-	ex.emit(st, Event{Kind: k, Obj: p.obj, Path: pathString(p.path)})
+	ex.emit(st, Event{Kind: k, Obj: p.obj, Path: evPath(p.path), Src: ex.srcOf(st)})
 }
 
 func (ex *Exec) emitObj(st *State, obj int, write bool) {
-	if !st.traceOn || !ex.sharedObjs[obj] {
+	if !st.traceOn || !st.isShared(obj) {
 		return
 	}
 	k := "Read"
 	if write {
 		k = "Write"
 	}
-	ex.emit(st, Event{Kind: k, Obj: obj})
+	ex.emit(st, Event{Kind: k, Obj: obj, Src: ex.srcOf(st)})
 }
 
 func (ex *Exec) emitMap(st *State, obj int, kind string) {
